@@ -18,6 +18,29 @@ theorem pointwise_function_den (child : OpSem V) (h : Labels → Labels) (g : V 
   | error e => simp [Except.map, hs]
   | ok xs => simp [Except.map, hs, denote_map]
 
+/-- **`timestamp(selector)` reads the selected samples' own timestamps, in the engine as in the
+reference** (unpinned selector; under `@` with an offset the reference has the quirk the known
+finding KF-timestamp-at-offset records): the engine builds the selector in its timestamp mode and
+drops the name; at every step what it emits, read through its series list, is exactly the
+reference value - also when the selected sample is older than the step. -/
+theorem timestamp_of_selector (c : Ctx V) (hq : c.q.noDupCheck = true) (hts : c.q.timestampIsStepTime = false)
+    (s : VSel) (hat : s.atTs = none) (t : Int) :
+    ∃ o, engOp c (.call "timestamp" [.vsel s]) = .ok o ∧
+      (o.den t).map Value.vec = eval c t (.call "timestamp" [.vsel s]) := by
+  refine ⟨{ engSelector c s true with series := (engSelector c s true).series.map Labels.dropName }, ?_, ?_⟩
+  · rw [engOp] <;> first | rfl | (intro s r hh; cases hh) | skip
+  · rw [eval] <;> first | skip | (intro s r hh; cases hh)
+    simp only [Expr.unwrap, hts, Bool.false_eq_true, if_false, hat, dedupCheck, hq, Bool.not_true, Bool.false_and]
+    unfold OpSem.den engSelector selectT
+    simp only [Except.map]
+    have := denote_enum (matchingSeries c s) (fun sr => sr.labels.dropName)
+      (fun sr => (selectSample c.lookback (s.refTime c.start t) sr.samples).map fun p => (div (ofInt p.1) (ofInt 1000) : V))
+    simp only [VSel.refTime, Option.map_map, Function.comp_def, List.map_map] at this ⊢
+    rw [List.map_filterMap]
+    simp only [Option.map_map, Function.comp_def]
+    congr 2
+    simpa using this
+
 /-- `scalar(v)` is the value of the only element, NaN otherwise -/
 theorem scalar_semantics (c : Ctx V) (t : Int) (e : Expr V) (v : Vec V) (h : eval c t e = .ok (.vec v)) :
     eval c t (.call "scalar" [e]) = .ok (.scal (match v with | [x] => x.2 | _ => nan)) := by
